@@ -897,3 +897,193 @@ Proof.
 Qed.
 
 (* same for remove of one uid is vacuous (no cycle can arise); for any op: what repair accepts is sound *)
+
+(* ------------------------------------------------------------------ (a) upsert_entities, one entity: edit phase *)
+Lemma find_map_keep (h : uid * node -> uid * node) : (forall kn, fst (h kn) = fst kn) ->
+  forall s x, find x (map h s) = option_map (fun n => snd (h (x, n))) (find x s).
+Proof.
+  intros Hh. induction s as [|[k n] s IH]; intros x; cbn [map find option_map]; [reflexivity|].
+  destruct (h (k, n)) as [k' n'] eqn:E. pose proof (Hh (k, n)) as Hk. rewrite E in Hk. cbn [fst] in Hk. subst k'.
+  destruct (N.eqb x k) eqn:E2.
+  - apply N.eqb_eq in E2. subst x. cbn [option_map]. rewrite E. reflexivity.
+  - apply IH.
+Qed.
+
+Lemma parents_of_g_upd g e x : gfind (fst e) g <> None ->
+  parents_of (g_upd g e) x = if N.eqb x (fst e) then snd e else parents_of g x.
+Proof.
+  intros Hk. unfold g_upd. destruct (gfind (fst e) g) as [q|] eqn:Gq; [|congruence]. clear Hk.
+  unfold parents_of. revert q Gq. induction g as [|[k ps] g IH]; intros q Gq; cbn [gfind] in Gq; [discriminate|].
+  cbn [map gfind fst snd]. destruct (N.eqb (fst e) k) eqn:E.
+  - apply N.eqb_eq in E. subst k. cbn [gfind fst snd]. destruct (N.eqb x (fst e)) eqn:E2; [reflexivity|].
+    (* below the first occurrence the map may or may not change later entries; lookups of x <> u agree *)
+    clear IH Gq. induction g as [|[k2 ps2] g IH2]; cbn [map gfind fst snd]; [reflexivity|].
+    destruct (N.eqb (fst e) k2) eqn:E3; cbn [gfind fst snd].
+    + apply N.eqb_eq in E3. subst k2. rewrite E2. exact IH2.
+    + destruct (N.eqb x k2); [reflexivity | exact IH2].
+  - cbn [gfind fst snd]. destruct (N.eqb x k) eqn:E2.
+    + apply N.eqb_eq in E2. subst k. destruct (N.eqb x (fst e)) eqn:E3; [|reflexivity].
+      apply N.eqb_eq in E3. subst x. rewrite N.eqb_refl in E. discriminate.
+    + eapply IH; exact Gq.
+Qed.
+
+(* paths that do not both start below u and end above u are unaffected by re-routing u *)
+Lemma upd_path_avoid u g g1 x a :
+  (forall b, b <> u -> parents_of g1 b = parents_of g b) ->
+  x <> u -> reach g x a -> (~ reach g x u \/ ~ reach g u a) -> reach g1 x a.
+Proof.
+  intros Hsame Hx Hr. induction Hr as [p Hp | b p Hb IH Hp]; intros Hc.
+  - apply reach_parent. rewrite Hsame by exact Hx. exact Hp.
+  - assert (Hbu : b <> u).
+    { intros ->. destruct Hc as [Hc|Hc]; [apply Hc; exact Hb | apply Hc; apply reach_parent; exact Hp]. }
+    assert (Hcb : ~ reach g x u \/ ~ reach g u b).
+    { destruct Hc as [Hc|Hc]; [left; exact Hc|]. right. intros H. apply Hc. eapply reach_step; eassumption. }
+    eapply reach_step; [apply IH; exact Hcb|]. rewrite Hsame by exact Hbu. exact Hp.
+Qed.
+
+Definition up_node (u : uid) (old_anc : list uid) (n : node) : node :=
+  if is_desc n u then strip n u old_anc else n.
+
+Section UpsertOne.
+Variables (s : store) (u : uid) (ps : list uid) (old : node).
+Hypothesis HI : Inv s.
+Hypothesis Fu : find u s = Some old.
+
+Let e : ent := (u, ps).
+Let s1 : store := fst (i_upsert_one (s, []) e).
+Let T : list uid := snd (i_upsert_one (s, []) e).
+Let g0 := graph_of s.
+Let g1 := graph_of s1.
+
+Lemma up1_graph : g1 = g_upd g0 e.
+Proof. apply inc_upsert_graph. Qed.
+
+Lemma up1_parents x : parents_of g1 x = if N.eqb x u then ps else parents_of g0 x.
+Proof.
+  rewrite up1_graph. rewrite parents_of_g_upd; [reflexivity|].
+  unfold g0. rewrite find_gfind. unfold e; cbn [fst snd]. rewrite Fu. discriminate.
+Qed.
+
+Lemma up1_find x :
+  find x s1 = if N.eqb x u then Some (mkNode ps []) else option_map (up_node u (ancestors old)) (find x s).
+Proof.
+  unfold s1, i_upsert_one. unfold e; cbn [fst snd]. rewrite Fu. cbn [fst].
+  set (h := fun kn : uid * node => if negb (N.eqb (fst kn) u) && is_desc (snd kn) u
+                                   then (fst kn, strip (snd kn) u (ancestors old)) else kn).
+  assert (Hh : forall kn, fst (h kn) = fst kn) by (intros kn; unfold h; destruct (_ && _); reflexivity).
+  unfold upd_over. cbn [fst snd]. rewrite (find_map_keep h Hh), Fu. cbn [option_map].
+  destruct (N.eqb x u) eqn:E.
+  - apply N.eqb_eq in E. subst x. rewrite find_update_same, (find_map_keep h Hh), Fu. reflexivity.
+  - rewrite find_update_other by (apply N.eqb_neq; exact E). rewrite (find_map_keep h Hh).
+    destruct (find x s) as [n|]; [|reflexivity]. cbn [option_map]. unfold h, up_node. cbn [fst snd]. rewrite E. cbn [negb andb].
+    destruct (is_desc n u); reflexivity.
+Qed.
+
+Lemma up1_touched x n : find x s = Some n -> x <> u -> is_desc n u = true -> In x T.
+Proof.
+  intros F Hx D. unfold T, i_upsert_one. unfold e; cbn [fst snd]. rewrite Fu. cbn [snd].
+  apply add_set_In. right.
+  apply fold_cond_add with (c := fun kn => negb (N.eqb (fst kn) u) && is_desc (snd kn) u).
+  right. exists (x, n). split; [apply find_some_in; exact F|]. split; [|reflexivity].
+  cbn [fst snd]. rewrite D. apply N.eqb_neq in Hx. rewrite Hx. reflexivity.
+Qed.
+
+Lemma up1_u_touched : In u T.
+Proof. unfold T, i_upsert_one. unfold e; cbn [fst snd]. rewrite Fu. cbn [snd]. apply add_set_In. left; reflexivity. Qed.
+
+Lemma up1_sound : Sound g1 s1.
+Proof.
+  intros x n1 F1 a Ha. rewrite up1_find in F1. destruct (N.eqb x u) eqn:Exu.
+  - apply N.eqb_eq in Exu. subst x. inversion F1; subst n1. apply reach_parent. rewrite up1_parents, N.eqb_refl.
+    unfold ancestors in Ha. cbn [n_parents n_indirect] in Ha. rewrite app_nil_r in Ha. exact Ha.
+  - apply N.eqb_neq in Exu. destruct (find x s) as [n0|] eqn:F0; [|discriminate]. cbn [option_map] in F1.
+    inversion F1; subst n1. clear F1.
+    pose proof (Inv_Sound s HI x n0 F0) as S0. pose proof (Inv_complete s x HI n0 F0) as C0.
+    assert (Hsame : forall b, b <> u -> parents_of g1 b = parents_of g0 b).
+    { intros b Hb. rewrite up1_parents. apply N.eqb_neq in Hb. rewrite Hb. reflexivity. }
+    unfold up_node in Ha. destruct (is_desc n0 u) eqn:D.
+    + unfold ancestors in Ha. rewrite strip_parents in Ha. apply in_app_or in Ha as [Ha|Ha].
+      * apply reach_parent. rewrite Hsame by exact Exu. unfold g0. rewrite (parents_of_graph_of s x n0 F0). exact Ha.
+      * unfold strip in Ha. apply fold_remove_indirect_ind in Ha as [Ha Hnr]. cbn [remove_indirect n_indirect] in Ha.
+        apply remove_set_In in Ha as [Ha _].
+        eapply (upd_path_avoid u g0 g1); [exact Hsame | exact Exu | |].
+        -- apply S0. unfold ancestors. apply in_or_app; right; exact Ha.
+        -- right. intros Hr. apply Hnr. eapply Inv_complete; eassumption.
+    + eapply (upd_path_avoid u g0 g1); [exact Hsame | exact Exu | apply S0; exact Ha |].
+      left. intros Hr. apply C0 in Hr. apply is_desc_In in Hr. congruence.
+Qed.
+
+Lemma up1_untouched x : In x (keys s1) -> ~ In x (touch_descendants T s1) -> complete g1 s1 x.
+Proof.
+  intros _ HnT n1 F1 a Hr.
+  assert (HxT : ~ In x T) by (intros H; apply HnT, td_mono, H).
+  rewrite up1_find in F1. destruct (N.eqb x u) eqn:Exu.
+  - apply N.eqb_eq in Exu. subst x. exfalso. apply HxT, up1_u_touched.
+  - apply N.eqb_neq in Exu. destruct (find x s) as [n0|] eqn:F0; [|discriminate]. cbn [option_map] in F1.
+    inversion F1; subst n1. clear F1. unfold up_node.
+    destruct (is_desc n0 u) eqn:D; [exfalso; apply HxT; eapply up1_touched; eassumption|].
+    pose proof (Inv_complete s x HI n0 F0) as C0.
+    assert (R0 : reach g0 x a).
+    { induction Hr as [p Hp | b p Hb IH Hp].
+      - apply reach_parent. rewrite up1_parents in Hp. apply N.eqb_neq in Exu. rewrite Exu in Hp. exact Hp.
+      - eapply reach_step; [exact IH|]. rewrite up1_parents in Hp.
+        destruct (N.eqb b u) eqn:Eb; [|exact Hp].
+        apply N.eqb_eq in Eb. subst b. apply C0 in IH. apply is_desc_In in IH. congruence. }
+    apply C0; exact R0.
+Qed.
+
+Lemma up1_spec_graph : graph_of (upd_over s e) = g1.
+Proof. rewrite graph_of_upd_over. symmetry. apply up1_graph. Qed.
+
+Lemma up1_refines : acyclic g1 ->
+  exists si ss, i_upsert true s [e] = TOk si /\ s_compute s (OUpsert true [e]) = TOk ss /\ agree si ss.
+Proof.
+  intros Hacy. unfold i_upsert, s_compute. cbn [fold_left s_edit].
+  rewrite (surjective_pairing (i_upsert_one (s, []) e)). fold s1. fold T. cbv beta iota.
+  unfold finish. apply refine_finish.
+  - apply upd_over_keys. apply HI.
+  - apply up1_spec_graph.
+  - apply up1_sound.
+  - apply up1_untouched.
+  - exact Hacy.
+Qed.
+
+Lemma up1_cycle : i_upsert true s [e] = TErr ECycle -> s_compute s (OUpsert true [e]) = TErr ECycle.
+Proof.
+  intros H. unfold i_upsert in H. cbn [fold_left] in H.
+  rewrite (surjective_pairing (i_upsert_one (s, []) e)) in H. fold s1 in H. fold T in H. cbv beta iota in H.
+  unfold finish in H. pose proof (repair_sound s1 (touch_descendants T s1) up1_sound) as RS.
+  rewrite H in RS. destruct RS as [x [Hk Hr]].
+  eapply spec_op_cycle_rejected with (s1 := upd_over s e) (u := x); [reflexivity | |].
+  - (* same keys *)
+    assert (G : graph_of (upd_over s e) = graph_of s1) by apply up1_spec_graph.
+    rewrite <- keys_graph_of, G, keys_graph_of. exact Hk.
+  - rewrite up1_spec_graph. exact Hr.
+Qed.
+End UpsertOne.
+
+Lemma upsert_absent_is_add s e : find (fst e) s = None ->
+  i_upsert true s [e] = i_add true s [e]
+  /\ s_compute s (OUpsert true [e]) = s_compute s (OAdd true [e])
+  /\ insert_all s [e] = TOk (upd_over s e).
+Proof.
+  intros F. unfold i_upsert, i_add, s_compute. cbn [fold_left s_edit i_add_loop insert_all].
+  unfold i_upsert_one, upd_noover, upd_over. rewrite !F. cbn [fst snd]. rewrite ?F. repeat split; rewrite ?F; reflexivity.
+Qed.
+
+Lemma inc_refines_upsert_one s e :
+  Inv s ->
+  (acyclic (graph_of (upd_over s e)) ->
+   exists si ss, i_upsert true s [e] = TOk si /\ s_compute s (OUpsert true [e]) = TOk ss /\ agree si ss)
+  /\ (i_upsert true s [e] = TErr ECycle -> s_compute s (OUpsert true [e]) = TErr ECycle).
+Proof.
+  intros HI. destruct e as [u ps]. destruct (find u s) as [old|] eqn:Fu.
+  - split.
+    + intros Hacy. apply (up1_refines s u ps old HI Fu).
+      rewrite <- (up1_spec_graph s u ps). exact Hacy.
+    + apply (up1_cycle s u ps old HI Fu).
+  - destruct (upsert_absent_is_add s (u, ps) Fu) as [E1 [E2 E3]]. split.
+    + intros Hacy. destruct (inc_refines_add s [(u, ps)] _ HI E3 Hacy) as [si [ss [A [B C]]]].
+      exists si, ss. split; [exact (eq_trans E1 A) | split; [exact (eq_trans E2 B) | exact C]].
+    + intros H. refine (eq_trans E2 _). eapply inc_add_cycle; [exact HI | exact E3 | exact (eq_trans (eq_sym E1) H)].
+Qed.
